@@ -20,7 +20,8 @@ Correspondence between model steps and code:
 * `pop i`                 one iteration of `_dispatcher`: if the heap head is due
                           (`execute_at - now <= 0`) pop it and submit `_process_memory_job`.
 * `task i j`              the next DB-call-sized piece of `_process_memory_job(j)`:
-                          capture (CAS, on failure forget the job) | invoke | delete + forget.
+                          capture (CAS, on failure forget the job) | `_prepare_and_invoke_job`
+                          (a job in `cfg.bad` cannot be prepared: logged, not invoked) | delete + forget.
 * `pollSelect i`          `get_scheduled_jobs_to_start(now, batch_size)` inside the poll transaction.
 * `pollCapture i`         the `_capture_scheduled_job` CASes of that transaction (+ commit).
 * `pollNext i`            the next piece of the invoke/delete loop of `_process_store_jobs`
@@ -34,6 +35,10 @@ structure Cfg where
   pickup : Nat            -- scheduler.pickup_job_after (whole seconds)
   timeout : Nat           -- scheduler.captured_job_timeout (whole seconds)
   batch : Option Nat      -- scheduler.batch_size
+  /-- ids (= scheduling ordinals) of the jobs that cannot be prepared: `_prepare_job` raises for
+      them (target function or argument serializer not importable).  An oracle of the run, like the
+      action results of the engine model; fixed for the whole history. -/
+  bad : List Nat := []
 deriving Repr, DecidableEq
 
 inductive Vis where
@@ -247,7 +252,7 @@ def stepPop (s : State) (i : Nat) : State :=
       else s
     | [] => s
 
-def stepTask (s : State) (i j : Nat) : State :=
+def stepTask (cfg : Cfg) (s : State) (i j : Nat) : State :=
   onInst s i fun inst =>
     match inst.tasks.find? (fun t => t.id == j) with
     | some t =>
@@ -264,6 +269,11 @@ def stepTask (s : State) (i j : Nat) : State :=
         | none =>
           setInst s i { inst with tasks := dropTask j inst.tasks, inMem := forget j inst.inMem }
       | .captured =>
+        -- `_prepare_and_invoke_job`: a job that cannot be prepared is logged and not invoked;
+        -- either way the call returns and the delete follows
+        if cfg.bad.contains j then
+          setInst s i { inst with tasks := setStage j .invoked inst.tasks }
+        else
         { s with
           trace := .invoked j s.clock i :: s.trace
           insts := s.insts.set i { inst with tasks := setStage j .invoked inst.tasks } }
@@ -296,10 +306,13 @@ def stepPollCapture (s : State) (i : Nat) : State :=
                   else .running (captureAll s.clock cands s.rows).2 false } }
     | _ => s
 
-def stepPollNext (s : State) (i : Nat) : State :=
+def stepPollNext (cfg : Cfg) (s : State) (i : Nat) : State :=
   onInst s i fun inst =>
     match inst.poll with
     | .running (j :: q) false =>
+      if cfg.bad.contains j then
+        setInst s i { inst with poll := .running (j :: q) true }
+      else
       { s with
         trace := .invoked j s.clock i :: s.trace
         insts := s.insts.set i { inst with poll := .running (j :: q) true } }
@@ -326,10 +339,10 @@ def step (cfg : Cfg) (s : State) : Step → State
   | .rollback tx => { s with rows := endTx tx .rolledBack s.rows }
   | .tick n => { s with clock := s.clock + n }
   | .pop i => stepPop s i
-  | .task i j => stepTask s i j
+  | .task i j => stepTask cfg s i j
   | .pollSelect i => stepPollSelect cfg s i
   | .pollCapture i => stepPollCapture s i
-  | .pollNext i => stepPollNext s i
+  | .pollNext i => stepPollNext cfg s i
   | .crash i => stepCrash s i
 
 def run (cfg : Cfg) (s : State) : List Step → State
